@@ -16,7 +16,7 @@
    input_keys selection) to the code's own definitions (`code_*`).
    A failing proof here (or an untranslatable function) is reported by the harness as a VIOLATION of C08
    (case kind "gen", the replay names the function and the first failing lemma). *)
-From Verif Require Import Base.Prelude Base.PyPrim Base.Index Proofs.PyPrimFacts Proofs.IndexFacts.
+From Verif Require Import Base.Prelude Base.PyPrim Base.Index Model.IndexOps Proofs.PyPrimFacts Proofs.IndexFacts.
 From VerifGen Require Import Gen_Index.
 
 (* ---------------------------------------------------------------- shape_to_strides *)
@@ -78,14 +78,10 @@ Proof.
 Qed.
 
 (* ---------------------------------------------------------------- select_by_mask *)
-Definition n_true (mask : list bool) : nat := length (filter id mask).
-Definition n_false (mask : list bool) : nat := length (filter negb mask).
-
 Theorem gen_select_by_mask_eq : forall (A : Type) (mask : list bool) (e i : list A),
-  py_select_by_mask mask e i =
-  if (n_true mask <=? length e) && (n_false mask <=? length i) then Ok (merge mask e i) else Err IndexError.
+  py_select_by_mask mask e i = select_by_mask mask e i.
 Proof.
-  intros A mask e i. unfold py_select_by_mask. cbv zeta.
+  intros A mask e i. unfold py_select_by_mask, select_by_mask. cbv zeta.
   match goal with |- bind (py_for _ ?b _) _ = _ => set (body := b) end.
   assert (L : forall m r i1 i2,
             py_for m body (r, i1, i2) =
@@ -277,7 +273,7 @@ Corollary code_select_then_split : forall mask (e i : list nat),
 Proof.
   intros mask e i He Hi. exists (merge mask e i).
   rewrite gen_select_by_mask_eq, gen_external_shape_from_mask_eq, gen_internal_shape_from_mask_eq.
-  rewrite He, Hi, !Nat.leb_refl. cbn [andb].
+  unfold select_by_mask. rewrite He, Hi, !Nat.leb_refl. cbn [andb].
   destruct (ext_of_merge mask e i He Hi) as [H1 H2]. rewrite H1, H2. repeat split; try reflexivity.
   clear H1 H2. revert e i He Hi. unfold n_true, n_false.
   induction mask as [|[|] m IH]; intros e i He Hi; [reflexivity| |]; cbn [filter id negb length] in *.
@@ -291,7 +287,7 @@ Corollary code_split_then_select : forall mask (sh : list nat), length sh = leng
 Proof.
   intros mask sh Hl. exists (ext_of mask sh), (int_of mask sh).
   rewrite gen_select_by_mask_eq, gen_external_shape_from_mask_eq, gen_internal_shape_from_mask_eq.
-  split; [reflexivity|]. split; [reflexivity|]. rewrite (merge_ext_int mask sh Hl).
+  split; [reflexivity|]. split; [reflexivity|]. unfold select_by_mask. rewrite (merge_ext_int mask sh Hl).
   assert (length (ext_of mask sh) = n_true mask /\ length (int_of mask sh) = n_false mask) as [-> ->].
   { unfold n_true, n_false. revert sh Hl. induction mask as [|[|] m IH]; intros [|x sh] Hl; try discriminate;
       cbn [ext_of int_of filter id negb length]; [auto| |]; injection Hl as Hl; destruct (IH sh Hl) as [H1 H2]; auto. }
@@ -302,7 +298,7 @@ Qed.
 Corollary code_select_short_raises : forall (A : Type) mask (e i : list A),
   length e < n_true mask \/ length i < n_false mask -> py_select_by_mask mask e i = Err IndexError.
 Proof.
-  intros A mask e i H. rewrite gen_select_by_mask_eq.
+  intros A mask e i H. rewrite gen_select_by_mask_eq. unfold select_by_mask.
   destruct (n_true mask <=? length e) eqn:E1; destruct (n_false mask <=? length i) eqn:E2; try reflexivity.
   apply Nat.leb_le in E1, E2. lia.
 Qed.
